@@ -321,6 +321,7 @@ def rule_flow(ctx):
         conds_all += Q.canon_conds(P, T.dom_conds(tb, ST, blk))
     has5 = any(c[0] == "cmp" and ((c[1] in ("Lt", "Ge") and T.fold_int(c[3]) == 5) or (c[1] in ("Le", "Gt") and T.fold_int(c[3]) == 4)) and T.has_call(c[2], "::len") for c in conds_all if c[0] == "cmp")
     has16 = any(c[0] == "cmp" and c[1] in ("Eq", "Ne") and T.strip(c[3])[0] == "const" and T.strip(c[3])[1] == 0x16 for c in conds_all if c[0] == "cmp") or \
+        any(c[0] == "int" and (c[2] == 0x16 or (isinstance(c[2], tuple) and any(0x16 in y for y in c[2][1:] if isinstance(y, tuple)))) for c in conds_all) or \
         any(s["k"] == "assign" and s["r"]["k"] == "binop" and s["r"]["op"] == "Eq" and "k" in s["r"]["b"] and T.const_value(s["r"]["b"]["k"])[1] == 0x16 for _, _, s in tb.iter_stmts())
     ctx.check(has5 and has16, "R3", "is_tls_traffic", "needs 5 bytes and content type 0x16", "TLS header test lost its length (5) or handshake-type (0x16) check", ctx.loc(tb))
     # accepted record versions: exactly 0x0300 ..= 0x0304 (SSL 3.0 .. TLS 1.3 record layer)
